@@ -138,6 +138,18 @@ def build_pool():
         pool.append({"op": "dump_many", "fmt": fmt, "out": fname, "src": recipes[0]["file"]})
         # a shorter trajectory under the same name (in histories the name may exist already, with more content)
         pool.append({"op": "dump_many", "fmt": fmt, "out": fname, "src": recipes[0]["file"], "nframes": 1})
+    # a GRO trajectory whose frames differ in labels and velocities (the corpus one repeats one frame)
+    gro = ("first frame, t= 0.0\n    3\n    1WATER  OW1    1   0.126   1.624   1.679  0.1227 -0.0580  0.0434\n"
+           "    1WATER  HW2    2   0.190   1.661   1.747  0.8085  0.3191 -0.7791\n    1WATER  HW3    3   0.177   1.568   1.613 -0.9045 -2.6469  1.3180\n"
+           "   1.82060   1.82060   1.82060\nsecond frame, t= 1.0\n    3\n    2METHA  C1     1   0.226   1.524   1.579  0.3227 -0.1580  0.2434\n"
+           "    2METHA  O2     2   0.290   1.561   1.647 -0.2085  0.1191 -0.3791\n    2METHA  H3     3   0.277   1.468   1.513  0.5045 -1.2469  0.7180\n"
+           "   1.82060   1.82060   1.82060\n")
+    pool.append({"op": "load_many", "file": "traj.gro", "fmt": None, "inline": gro})
+    # the same volumetric data in other memory layouts: the written bytes must be those of the plain object
+    plain_cube = next(i for i, c in enumerate(pool) if c["op"] == "dump_one" and c.get("fmt") == "cube")
+    for how in ("fortran", "transposed_view"):
+        pool.append({"op": "dump_one", "fmt": "cube", "out": "o.cube", "obj": {**copy.deepcopy(pool[plain_cube]["obj"]), "mods": [{"op": "cube_layout", "how": how}]},
+                     "same_as": plain_cube})
     # conversions whose output lies in a directory that does not exist (shared by all clients of a run): the operating
     # system's error is the outcome, alone and interleaved
     for k_, (inp, outn) in enumerate((("water.xyz", "c.xyz"), ("water_trajectory.xyz", "c.pdb"), ("h2o_sto3g.fchk", "c.molden"))):
@@ -275,14 +287,22 @@ def exec_call(call, prep, disk, prefix, reference=False):
                 # take one frame, do something else with the library, then resume the iterator
                 it = iodata.load_many(path, fmt=call.get("fmt"))
                 ds = []
+                at_yield = []
                 for d in it:
+                    at_yield.append(canon.iodata_digest(d))
                     ds.append(d)
                     if len(ds) == 1:
                         inner = call["pause"]
                         exec_call(inner, prep["pause_prep"], disk, prefix + "inner/")
             else:
-                ds = list(iodata.load_many(path, fmt=call.get("fmt")))
+                ds = []
+                at_yield = []
+                for d in iodata.load_many(path, fmt=call.get("fmt")):
+                    at_yield.append(canon.iodata_digest(d))  # what the caller sees when the frame is handed out
+                    ds.append(d)
             rec = ["ok", [canon.iodata_digest(d) for d in ds]]
+            if rec[1] != at_yield:
+                rec.append("FRAMES_CHANGED_AFTER_YIELD")
         if "out" in call:
             # (also without faults: under a name used before, the fault plan of the earlier call must not linger)
             disk.plans[prefix + call["out"]] = seams.WritePlan.from_faults(call.get("faults"))
@@ -512,6 +532,9 @@ def run_history(trace, refs, stats=None):
                 break
             recs.append(rec)
             ref = refs[call["id"]] if call["id"] in refs else None
+            if rec and rec[-1] == "FRAMES_CHANGED_AFTER_YIELD":
+                out.append(_v("frame_changed_after_yield", f"call #{k} {_call_name(call)}: a frame was different at the end of the iteration from what it was when "
+                              "load_many handed it out", {**trace, "calls": calls[: k + 1]}, _call_name(call)))
             if ref is not None and rec != ref:
                 prev = _call_name(calls[k - 1]) if k else "-"
                 out.append(_v("outcome_differs", f"call #{k} {_call_name(call)} gave {rec} but alone in a pristine process {ref} "
@@ -591,6 +614,9 @@ def run_threads(trace, refs, rng=None, stats=None):
         for k, call in enumerate(cl):
             rec = results[ci][k]
             ref = refs.get(call["id"])
+            if rec and rec[-1] == "FRAMES_CHANGED_AFTER_YIELD":
+                out.append(_v("frame_changed_after_yield", f"client {ci} call #{k} {_call_name(call)}: a frame was different at the end of the iteration from what it "
+                              "was when load_many handed it out", trace, _call_name(call)))
             if rec is not None and ref is not None and rec != ref:
                 out.append(_v("outcome_differs", f"client {ci} call #{k} {_call_name(call)} gave {rec} under interleaving but alone {ref}{_memnote(trace)}",
                               trace, _call_name(call)))
@@ -620,6 +646,9 @@ def execute(trace):
     global POOL, REFS
     if REFS is None:
         _ensure_refs_for(trace)
+    if trace["mode"] == "layout":
+        a, b = trace["calls"]
+        return [] if REFS[a["id"]] == REFS[b["id"]] else [_v("layout_dependent_outcome", f"{_call_name(a)}: {REFS[a['id']]} in another memory layout, {REFS[b['id']]} plain", trace, _call_name(a))]
     if trace["mode"] == "fresh":
         bad = fresh_crosscheck(POOL or build_pool(), REFS, [trace["calls"][0]["id"]], hashseeds=("1", "4242", "99991", "7"))
         return [_v("fresh_interpreter_differs", f"fresh interpreter gives {rec}, pristine fork {ref}", trace, _call_name(trace["calls"][0])) for _c, ref, rec in bad]
@@ -704,6 +733,10 @@ def plan(tier, seed, args):
     FRESH_CHECKED = len(ids)
     n = args.runs or (700 if tier == "quick" else 12000)
     tasks = [{"run": i, "seed": seed, "tier": tier} for i in range(n)]
+    # metamorphic relation: an argument that differs only in the memory layout of an array gives the outcome of the plain one
+    for c in POOL:
+        if c.get("same_as") is not None and REFS[c["id"]] != REFS[c["same_as"]]:
+            FRESH_BAD.append((c["id"], REFS[c["same_as"]], REFS[c["id"]]))
     if FRESH_BAD:
         tasks.insert(0, {"run": -1, "seed": seed, "tier": tier, "fresh_bad": [(cid, ref, rec) for cid, ref, rec in FRESH_BAD]})
     # Adaptive targeting: calls that write process-global state when run alone (none on a tree where the property
@@ -774,6 +807,10 @@ def run_task(task):
         viols = []
         for cid, ref, rec in task["fresh_bad"]:
             call = POOL[cid]
+            if call.get("same_as") is not None:
+                viols.append(_v("layout_dependent_outcome", f"{_call_name(call)} with the same values in another memory layout ({call['obj']['mods']}) gave {rec}, "
+                                f"the plain object {ref}", {"mode": "layout", "calls": [call, POOL[call['same_as']]]}, _call_name(call)))
+                continue
             viols.append(_v("fresh_interpreter_differs", f"{_call_name(call)} gave {rec} alone in a fresh interpreter (other PYTHONHASHSEED) but {ref} in the "
                             "pristine fork: the result depends on more than the arguments", {"mode": "fresh", "calls": [call]}, _call_name(call)))
         return {"n": len(viols), "digest": "fresh", "odigest": "fresh", "violations": viols, "stats": stats.export(), "sample": None}
